@@ -227,9 +227,11 @@ func runPressure(seed uint64, idx int) (in sx.V, out sx.V, tags []string) {
 			c := r.Intn(nc)
 			if !(scenario == 4 && c == 0) {
 				var b []byte
-				for k := r.Range(700, 1500); k > 0; k-- {
+				// wrong arity: a 43-byte reply each; 150-300 of them overflow the minimal socket buffer
+				// (the model's cost grows with the square of what a client has received, so not more)
+				for k := r.Range(150, 300); k > 0; k-- {
 					w.reqSeq[c]++
-					b = append(b, []byte("*1\r\n$4\r\nPING\r\n")...)
+					b = append(b, []byte("*1\r\n$3\r\nget\r\n")...)
 				}
 				ok = w.send(c, b)
 				tagset["read-full-of-local-replies"] = true
